@@ -15,7 +15,7 @@ import (
 	"syscall"
 	"time"
 
-	_ "verif/checks"
+	"verif/checks"
 	"verif/engine"
 )
 
@@ -35,6 +35,11 @@ func main() {
 		child(os.Args[2], os.Args[3], os.Args[4])
 	case "replay":
 		os.Exit(replay(os.Args[2], true))
+	case "deepnest":
+		ext := os.Args[2] == "true"
+		levels, _ := strconv.Atoi(os.Args[3])
+		mb, _ := strconv.Atoi(os.Args[4])
+		checks.DeepNestMain(ext, levels, mb)
 	case "list":
 		for _, id := range engine.IDs() {
 			fmt.Println(id)
